@@ -109,11 +109,13 @@ type TermStore struct {
 	ranged     map[string]bool
 	monos      map[[2]int]*Term
 	quots      map[string]*Term
+	quotOf     map[int]quotDef
 	monoSeq    int
 	quotSeq    int
 	wraps      int
 	abstracted bool
 	monoDefs   [][3]*Term
+	idomain    map[int][]bool
 }
 
 // Constants are global (shared by all stores, including the init-time heap) so that frozen
@@ -1133,6 +1135,9 @@ func (s *TermStore) rebuild(t *Term, a []*Term) *Term {
 	case OpBNot:
 		return s.BNot(a[0])
 	case OpSelect:
+		if t.w == IntW {
+			return s.ISelect(t.tab, a[0])
+		}
 		return s.Select(t.tab, a[0])
 	case OpUF:
 		return s.UF(t.name, t.w, a...)
@@ -1205,7 +1210,7 @@ func (s *TermStore) norm(t *Term) *Term {
 				changed = true
 			}
 		}
-		if changed || t.op == OpSelect {
+		if changed || t.op == OpSelect || (len(t.args) > 0 && t.args[0].w == IntW && (t.op == OpSlt || t.op == OpEq)) {
 			res = s.rebuild(t, na)
 			if res != t && !res.IsConst() {
 				if k, ok := s.sub.m[res.id]; ok {
